@@ -48,9 +48,15 @@ def watchdog(seconds):
 
 # ---------------------------------------------------------------- line tracer
 TRACED = {"aio_submit": "scheduler/base.py", "aio_start": "scheduler/base.py", "aio_run": "commandline.py"}
+if SPEC.get("trace_write"):
+    TRACED["write"] = "scriptbuilder.py"     # PythonScriptBuilder.write: the job script is rewritten in place
 KILL = SPEC.get("kill")
 PAUSE = SPEC.get("pause")      # {n, funcs, until}: at the n-th executed line wait for a control file
 _pcount = [0]
+PAUSE_AT = SPEC.get("pause_at")  # {func, startswith, until}: wait before the first executed line with that text
+_pa_done = [False]
+FREEZE = SPEC.get("freeze")    # {n, funcs}: at the n-th executed line SIGSTOP the job process just created
+_fcount = [0]
 SIGS = {"KILL": signal.SIGKILL, "TERM": signal.SIGTERM, "INT": signal.SIGINT}
 _count = [0]
 _killed = [False]
@@ -105,6 +111,23 @@ def _local(frame, event, arg):
                 while not (CTL / PAUSE["until"]).exists() and time.time() - tp < 25:
                     time.sleep(0.002)
                 ev(f"RESUME {fn} {frame.f_lineno} {tag}")
+        if FREEZE is not None and fn in FREEZE["funcs"]:
+            _fcount[0] += 1
+            if _fcount[0] == FREEZE["n"] and _lastpid[0] is not None:
+                try:
+                    os.kill(_lastpid[0], signal.SIGSTOP)
+                    ev(f"FROZEN {_lastpid[0]}")
+                except OSError:
+                    pass
+        if PAUSE_AT is not None and not _pa_done[0] and fn == PAUSE_AT["func"]:
+            import linecache
+            if linecache.getline(frame.f_code.co_filename, frame.f_lineno).strip().startswith(PAUSE_AT["startswith"]):
+                _pa_done[0] = True
+                ev(f"PAUSE {fn} {frame.f_lineno} {tag}")
+                tp = time.time()
+                while not (CTL / PAUSE_AT["until"]).exists() and time.time() - tp < 25:
+                    time.sleep(0.002)
+                ev(f"RESUME {fn} {frame.f_lineno} {tag}")
         ev(f"L {fn} {frame.f_lineno} {tag} {extra}")
         if counted and _count[0] == KILL["n"]:
             _killed[0] = True
@@ -143,7 +166,7 @@ def main():
         logging.basicConfig(filename=SPEC["debuglog"], level=logging.DEBUG, format="%(asctime)s %(threadName)s %(name)s %(message)s")
     else:
         logging.disable(logging.CRITICAL)
-    if SPEC.get("trace") or KILL or PAUSE:
+    if SPEC.get("trace") or KILL or PAUSE or PAUSE_AT or FREEZE:
         threading.settrace(_global)
         sys.settrace(_global)
     from experimaestro import experiment
